@@ -337,7 +337,9 @@ def run(chk: Check):
            "commute": [[math.atan2(float(s), float(c)), angle(e), angle(e1), angle(e2)] for c, s, e, e1, e2 in ccases],
            "identity_modes": list(range(1, 13))}
     nseed = rng.randrange(2 ** 31)
+    hseed = rng.randrange(2 ** 31)
     with ThreadPoolExecutor(max_workers=3) as ex:
+        f_hist = ex.submit(run_impl, "c15_history.py", {"seed": hseed, "tier": chk.tier}, 1800)
         f_num = ex.submit(run_impl, "c15_numeric.py", {"seed": nseed, "tier": chk.tier, "corpus": corpus}, 3000)
         f_impl = ex.submit(run_impl, "c15_impl.py", req, 1800)
         chk.proofs(timeout=3000)
@@ -407,6 +409,36 @@ def run(chk: Check):
 
         # ------------------------------------------------------------ certificate check + search
         num = f_num.result()
+        hist = f_hist.result()
+    # ------------------------------------------------------------ multi-call histories
+    # several calls of the same entry point (same d, different inputs, another d in between),
+    # results kept and re-checked only after the last call: a result is a function of its
+    # argument alone (no shared template/cache/buffer), inputs are not modified
+    n_calls = 0
+    bad_hist = 0
+    seen_h = set()
+    for h in hist["histories"]:
+        n_calls += h["n_calls"]
+        if not h["problems"]:
+            continue
+        bad_hist += 1
+        for pr in h["problems"]:
+            key = "C15:%s:history:%s" % (h["fn"], pr["kind"])
+            if key in seen_h:
+                continue
+            seen_h.add(key)
+            chk.violation(key,
+                          "%s, called %d times in one process with d = %s: %s (call %s) — every call must return a fresh result that depends on its argument only and stays valid after later calls"
+                          % (h["fn"], h["n_calls"], h["ds"], pr["kind"], pr.get("call")),
+                          {"fn": h["fn"], "dimensions_of_the_calls": h["ds"], "rng_seed": h["seed"],
+                           "problem": pr, "all_problems": h["problems"][:8],
+                           "reconstruction_error_per_call_[at_call, after_all_calls]": h["errs"],
+                           "history": h.get("history"),
+                           "replay": "harness/impl/c15_history.py with {\"seed\": %d, \"tier\": \"%s\", \"only\": [\"%s\"]}" % (hseed, chk.tier, h["fn"])})
+    chk.stream("multi-call histories (search): 11 entry points, 3-6 calls each with results kept and re-checked after the last call (inputs unchanged, earlier results unchanged byte-for-byte, no shared objects/memory, earlier results still reconstruct their input)",
+               n_calls, len(hist["histories"]), kind="search",
+               samples=[{"fn": hist["histories"][0]["fn"], "ds": hist["histories"][0]["ds"], "errs": hist["histories"][0]["errs"]}] if hist["histories"] else None,
+               note="%d histories with a problem" % bad_hist)
     per = {}
     hyp_fail = {}
     worst_seen = {}
@@ -454,6 +486,7 @@ def run(chk: Check):
     chk.assumptions += [
         "Clements: isclose(x, 0) is modelled as x = 0 and arctan/abs/angle/cos/sin/exp as exact square roots of rationals; cases whose square roots are irrational are compared by structure, recomposition and inverse_clements only",
         "Takagi/Williamson/Euler: svd, schur, sqrtm, polar, logm (LAPACK/SciPy) and root_scalar are not modelled; their contracts are hypotheses of the glue lemmas and are evaluated numerically on the actual outputs of every run (test)",
+        "purity: the Gallina model is a pure function, so 'a result depends only on its argument and is not changed by later calls' holds in the model by construction (weights_roundtrip_history states it for a list of calls); for the implementation it is checked by the multi-call histories (test), not proved",
         "the Gaussian-rational instance (Qi with Qred) of the ring operations is executed but not proved to satisfy the ring laws (setoid equality); the theorems are stated for every ring with Leibniz equality",
     ]
     chk.finish(
